@@ -42,6 +42,7 @@ type stats struct {
 	maxNodes                int
 	changedSamePT           int
 	baseDiffers             int
+	locNotPT                int
 	skipped                 map[string]int
 }
 
@@ -392,6 +393,6 @@ func Main(args []string) error {
 	tr.PrintStats(map[string]any{"scenarios": st.scenarios, "events": st.events, "distinct": len(st.distinct),
 		"samples": st.samples, "by_class": st.byCls, "by_status": st.byStatus, "op_kinds": st.opKind,
 		"panics": st.panics, "unsupported_selectors": st.unsupported, "max_nodes_per_event": st.maxNodes,
-		"changed_with_same_publishTime": st.changedSamePT, "base_regenerated_differs": st.baseDiffers, "skipped": st.skipped})
+		"changed_with_same_publishTime": st.changedSamePT, "base_regenerated_differs": st.baseDiffers, "location_not_mpd_publishTime": st.locNotPT, "skipped": st.skipped})
 	return nil
 }
